@@ -653,6 +653,12 @@ fn resolve_op(op: &Op, own: Option<SysUid>) -> (Resolved, Action)
                     None => (Resolved::Skipped(SkipReason::NoToken), Action::Nothing),
                 }
             }
+            Op::SysEventToEntity(e, ty) =>
+            {
+                let id = case.new_payload();
+                let carries = carry_for(case, id);
+                (Resolved::Payload{ id, sys: None, carries }, Action::SysEvent(ent(case, *e), *ty, id))
+            }
             Op::Broadcast(ty) =>
             {
                 let id = case.new_payload();
